@@ -206,6 +206,20 @@ def slice_has(sl, fields=(), calls=(), params=(), consts=()):
     return True
 
 
+def eq_guard_site(body, site, fields=(), params=(), calls=()):
+    """the comparison block whose EQUAL edge `site` depends on and whose operands derive from the named fields / params / calls"""
+    for (s, yes, no) in body.control_deps(site):
+        pol = eq_polarity(body, s)
+        if not pol:
+            continue
+        eq_t, ne_t, ops = pol
+        if eq_t in yes and ne_t in no:
+            roots = [op_place(o) for o in ops if op_place(o) is not None]
+            if slice_has(backward_slice(body, roots), fields, calls, params):
+                return s
+    return None
+
+
 def eq_guarded(ctx, key, body, site, desc, fields=(), params=(), calls=(), rule='K3-guard'):
     """`site` is reached only through the EQUAL edge of a comparison whose two sides are data-derived
     from the named fields / parameters / calls."""
